@@ -1,6 +1,8 @@
 import M3d.Lemmas.CodecSafe
 import M3d.Lemmas.CodecPly
 import M3d.Lemmas.CodecListAlloc
+import M3d.Lemmas.CodecBlank
+import M3d.Lemmas.CodecFaceAlloc
 /-!
 # C16 — decoders reject malformed input with an error instead of crashing
 
@@ -131,6 +133,23 @@ theorem ply_alloc_linear (ft : FloatText) (bs : Bytes) :
           exact aux bs [] hd r2 hs
     omega
 
+/-- **alloc_linear (faces of an OFF file through the triangulator)**: the polygon storage `Triangulate`
+keeps alive for a face is at most 112 bytes per corner, and a face line has fewer corners than bytes — so
+at most 112 × the length of the face line (repair 5aacb9a: one working copy, ears cut in a loop). -/
+theorem off_face_alloc_linear (ln : Bytes) : triLive (faceCorners ln) ≤ 112 * ln.length :=
+  Nat.le_trans (triLive_le _) (Nat.mul_le_mul_left _ (faceCorners_lt ln))
+
+/-- Before the repair the storage alive at the deepest level of the recursion was quadratic in the number of
+corners (a copy of the polygon per ear, one recursion level per corner) … -/
+theorem off_face_alloc_unrepaired_quadratic (n : Nat) : 16 * (n * n) ≤ triLiveUnrepaired n + 256 :=
+  triLiveUnrepaired_ge n
+
+/-- … e.g. the valid 9 533-byte OFF file with one convex 600-corner face that the big-polygon files of the
+correspondence found (site `c16:offm/over-allocation`: 11.8 MB measured against a bound of 1.66 MB). -/
+example : triLiveUnrepaired 600 > 64 * 9533 + 2 ^ 20 ∧ triLive 600 ≤ 64 * 9533 + 2 ^ 20 := by
+  have := triLiveUnrepaired_ge 600
+  refine ⟨by omega, by unfold triLive; omega⟩
+
 /-- Before the repair a list pre-allocated 16 bytes per *declared* entry: a 4-byte length of 2³²−1 is 64 GiB. -/
 example : listAllocUnrepaired (2 ^ 32 - 1) > 2 ^ 35 ∧ 16 * min (2 ^ 32 - 1) plyMaxPrealloc = 2 ^ 16 := by decide
 
@@ -248,6 +267,99 @@ example : ¬ (∀ l, growToDeclared 6000000 l ≤ 2 * l + goAppendSlack) := by
 
 example : listRequests (growToDeclared 6000000) 6000000 4097 = [(0, 4096), (4096, 6000000)] ∧
     listRequests goNextCap 6000000 4097 = [(0, 4096), (4096, 5312)] := by decide +kernel
+
+/-! ## rows that hold no token (white space only)
+
+`PLYReader.Read` (ASCII) evaluates `strings.Fields(line)[0]` under the guard `len(line) > 0`.  That index is
+in range only because `line` went through `strings.TrimSpace`: `Fields` is empty exactly on white-space-only
+strings.  `rowHead keep` is the head of `Read` with the index as an explicit `panic` value and the
+trimming function as the parameter `keep`; `rowHeadSpec` is the total branch structure `readRowAscii` has.
+The seeded change C16-8 (`keep = strings.TrimRight(·, "\r\n")`) is outside the hypotheses. -/
+
+/-- `strings.Fields(s)` is empty exactly when `strings.TrimSpace(s) == ""` (all Unicode white space
+included: the model's `spaceWidth`). -/
+theorem fields_empty_iff_blank (s : Bytes) : fields s = [] ↔ allSpace s = true :=
+  fields_eq_nil_iff s
+
+/-- **never panics (row head)**: for every function `keep` applied to the raw line that preserves the
+fields and returns the empty string exactly on white-space-only lines (`TrimSpace` does), the index
+`Fields(line)[0]` is never evaluated out of range, and the head of `Read` is the total one of the model:
+`io.ErrUnexpectedEOF` at a blank end of input, a skipped comment row, or the tokens handed to
+`DecodeInstanceString`. -/
+theorem ply_row_head_no_panic (keep : Bytes → Bytes) (hfields : ∀ r, fields (keep r) = fields r)
+    (hempty : ∀ r, (keep r).isEmpty = allSpace r) (raw : Bytes) (found : Bool) :
+    rowHead keep raw found ≠ .panic ∧ rowHead keep raw found = rowHeadSpec raw found := by
+  have h := rowHead_eq_spec keep hfields hempty raw found
+  refine ⟨?_, h⟩
+  rw [h]
+  unfold rowHeadSpec
+  split
+  · simp
+  · split <;> simp
+
+/-- **the row reader the correspondence runs is that head**: `readRowAscii` (what `drv_c16` evaluates for the
+kinds `plyg`/`plyc`) is `rowAfterHead` applied to the explicit-index head of the Go code, for every
+`TrimSpace`-like `keep` — so the model's answer on a row is the answer of code in which `Fields(line)[0]`
+was in range, and an implementation that panics there differs from it. -/
+theorem ply_ascii_row_is_head_then_decode (keep : Bytes → Bytes) (hfields : ∀ r, fields (keep r) = fields r)
+    (hempty : ∀ r, (keep r).isEmpty = allSpace r) (ft : FloatText) (el : Element) (bs ln rest : Bytes) (found : Bool)
+    (h : readLine bs = (ln, rest, found)) :
+    readRowAscii ft el bs = rowAfterHead ft el rest found (rowHead keep ln found) := by
+  rw [rowHead_eq_spec keep hfields hempty]
+  exact readRowAscii_head ft el bs ln rest found h
+
+/-- non-vacuity: the left half of `TrimSpace` (white space in front of the first field removed) satisfies
+both hypotheses … -/
+example : (∀ r, fields (trimLeft r) = fields r) ∧ (∀ r, (trimLeft r).isEmpty = allSpace r) :=
+  ⟨fields_trimLeft, trimLeft_isEmpty⟩
+
+/-- … and stripping only the line terminator (seeded change C16-8) does not: on the rows `"  \n"`,
+`"\t\r\n"` and an unterminated `"   "` the index is out of range, where the trimmed head is a data row
+without tokens / the unexpected-EOF error; an ordinary row, an indented one and a comment row are the same under both. -/
+example : rowHead trimRightCRLF [32, 32, 10] true = .panic ∧ rowHead trimRightCRLF [9, 13, 10] true = .panic ∧
+    rowHead trimRightCRLF [32, 32, 32] false = .panic ∧
+    rowHead trimLeft [32, 32, 10] true = .data [] ∧ rowHead trimLeft [32, 32, 32] false = .eofErr ∧
+    rowHead trimRightCRLF [10] true = .data [] ∧
+    rowHead trimRightCRLF [32, 49, 32, 50, 10] true = .data [[49], [50]] ∧
+    rowHead trimLeft [32, 49, 32, 50, 10] true = .data [[49], [50]] ∧
+    rowHead trimRightCRLF (ascii "comment x\n") true = .comment := by decide
+
+/-- **a blank row is an error, not data and not a crash**: a row that holds no token — empty, blanks,
+tabs, `\r`, any Unicode white space — of an element that has properties makes `Read` return an error
+(`DecodeInstanceString`'s "not enough tokens" when the line was terminated, `io.ErrUnexpectedEOF` when the
+input ended in it); nothing is consumed twice and no row is produced.  This is the answer the `plyg`/`plyc`
+correspondence expects on the white-space mutations of the corpus. -/
+theorem ply_ascii_blank_row_rejected (ft : FloatText) (el : Element) (bs ln rest : Bytes) (found : Bool)
+    (h : readLine bs = (ln, rest, found)) (hb : allSpace ln = true) (hp : el.props ≠ []) :
+    readRowAscii ft el bs = .error (if found then .bad else .unexpectedEOF) :=
+  readRowAscii_blank ft el bs ln rest found h hb hp
+
+/-- non-vacuity: `"  \n7\n"` and an unterminated `"\t "` in front of an element with one `uchar` property. -/
+example : allSpace [32, 32, 10] = true ∧ readLine [32, 32, 10, 55, 10] = ([32, 32, 10], [55, 10], true) ∧
+    allSpace [9, 32] = true ∧ readLine [9, 32] = ([9, 32], [], false) := by decide
+
+/-- **blank rows, OFF**: a vertex row or a face row that holds no token is an error (`len(parts) != 3`,
+`len(parts) == 0` are tested before any `parts[i]`), whatever white space it is made of. -/
+theorem off_blank_row_rejected (pf64 : Bytes → Option UInt64) (verts : List V3) (n : Nat) (bs ln rest : Bytes)
+    (found : Bool) (h : readLine bs = (ln, rest, found)) (hb : allSpace ln = true) :
+    offReadVerts pf64 (n + 1) bs = none ∧ offReadFaces verts (n + 1) bs = none :=
+  ⟨offReadVerts_blank pf64 n bs ln rest found h hb, offReadFaces_blank verts n bs ln rest found h hb⟩
+
+/-- **blank lines, ASCII STL**: a terminated line that holds no token is skipped — and consumed, so the loop
+goes on with strictly less input — and input that ends in white space (no `endsolid`) is
+`io.ErrUnexpectedEOF`; `tokens[0]` is only evaluated after `len(tokens) == 0` was excluded. -/
+theorem stl_ascii_blank_line_skipped (pf32 : Bytes → Option UInt32) (bs ln rest : Bytes) (normal verts : List UInt32)
+    (acc : List Rec) (found : Bool) (h : readLine bs = (ln, rest, found)) (hb : allSpace ln = true) :
+    stlAsciiLoop pf32 bs normal verts acc =
+      (if found then stlAsciiLoop pf32 rest normal verts acc else .error .unexpectedEOF) ∧
+    (found = true → rest.length < bs.length) := by
+  refine ⟨?_, ?_⟩
+  · cases found with
+    | true => simpa using stlAsciiLoop_blank pf32 bs ln rest normal verts acc h hb
+    | false => simpa using stlAsciiLoop_blank_eof pf32 bs ln rest normal verts acc h hb
+  · intro hf
+    subst hf
+    exact readLine_rest_lt bs ln rest true h (readLine_found_ne_nil bs ln rest h)
 
 /-! ## indices and errors -/
 
